@@ -249,6 +249,10 @@ func Gen(t *rapid.T) Case {
 		c.Files = genFileFields(t, 1)
 		c.MediaType = formMediaType(t, true)
 	}
+	if c.Kind == "form" {
+		c.Overlap = rapid.IntRange(0, 2).Draw(t, "overlap") == 0
+		c.PresetCT = rapid.SampledFrom([]string{"", "", "", "application/json", "text/plain", "multipart/form-data", "application/x-www-form-urlencoded"}).Draw(t, "presetct")
+	}
 	if c.Kind == "reader" || c.Kind == "readcloser" || c.Kind == "buffer" || c.Kind == "bytesreader" {
 		c.MediaType = rapid.SampledFrom([]string{"application/octet-stream", "application/octet-stream", "application/json", "text/plain", mtStampA, mtMultipart, mtURLEncoded}).Draw(t, "mt")
 		c.Body = &Blob{Data: genContent(t), Script: genScript(t)}
@@ -266,6 +270,7 @@ func GenUploads(t *rapid.T) Case {
 	}
 	c.Files = genFileFields(t, 1)
 	c.MediaType = formMediaType(t, true)
+	c.Overlap = rapid.IntRange(0, 2).Draw(t, "overlap") == 0
 	return c
 }
 
